@@ -10,8 +10,8 @@ from .. import cachelab as cl
 
 PROPERTY = "C18"
 LEVEL = "exploration"
-RULE = ("bounded-exhaustive histories: every sequence of length <= L (quick L=4, thorough L=5) over the 9 operation "
-        "symbols {get A, get B, get [A,C], get A<<x, remove A, purge, reopen, touch B, foreign} x 4 size limits "
+RULE = ("bounded-exhaustive histories: every sequence of length <= L (quick L=4, thorough L=5) over the 10 operation "
+        "symbols {get A, get B, get [A,C], get A<<x, remove A, purge, reopen, touch B, read-access A, foreign} x 4 size limits "
         "(no eviction / one eviction / a request that fills the cache exactly / request larger than the cache) x {sequential, parallel} executed on the real "
         "FileCache in a scratch directory and judged after every operation against an executable reference model "
         "(hits/misses from an instrumented resource log, bytes, file names, size bound, eviction relation, entry "
@@ -35,7 +35,7 @@ REQUIRED_REACH = ["cache_object.py:FileCache.__getitem__", "cache_object.py:File
 REQUIRED_COUNTERS = {"C18.evictions": 10, "C18.hits": 10, "C18.enlargements": 3, "C18.parallel_requests": 3,
                      "C18.histories": 50}
 TIMEOUT = {"quick": 900, "thorough": 3600}
-SYMBOLS = ["gA", "gB", "gAC", "gAx", "rA", "purge", "reopen", "tB", "foreign"]
+SYMBOLS = ["gA", "gB", "gAC", "gAx", "rA", "purge", "reopen", "tB", "aA", "foreign"]
 LIMITS = {"roomy": 10 ** 6, "tight": 9500, "exact": 8000, "tiny": 4500}
 NSHARDS = {"quick": 16, "thorough": 16}
 MAXLEN = {"quick": 4, "thorough": 5}
@@ -67,6 +67,8 @@ def apply(lab, sym):
         return lab.op_reopen()
     if sym == "tB":
         return lab.op_touch("B")
+    if sym == "aA":
+        return lab.op_access("A")
     if sym == "foreign":
         return lab.op_foreign()
     if sym.startswith("g:"):
@@ -75,6 +77,8 @@ def apply(lab, sym):
         return lab.op_remove(sym[2:])
     if sym.startswith("t:"):
         return lab.op_touch(sym[2:])
+    if sym.startswith("a:"):
+        return lab.op_access(sym[2:])
     raise ValueError(sym)
 
 
@@ -132,8 +136,10 @@ def random_history(rng):
             seq.append("purge")
         elif r < 0.86:
             seq.append("reopen")
-        elif r < 0.96:
+        elif r < 0.91:
             seq.append("t:" + str(rng.choice(keys)))
+        elif r < 0.96:
+            seq.append("a:" + str(rng.choice(keys)))
         else:
             seq.append("foreign")
     return seq
